@@ -169,6 +169,9 @@ static void WOPN_parseInstrument(WOPNInstrument *ins, uint8_t *cursor, uint16_t 
         ins->operators[l].susrel_80   = cursor[off + 5];
         ins->operators[l].ssgeg_90    = cursor[off + 6];
     }
+    /* Not carried by version 1 and by single-instrument files */
+    ins->delay_on_ms  = 0;
+    ins->delay_off_ms = 0;
     if((version >= 2) && has_sounding_delays)
     {
         ins->delay_on_ms  = toUint16BE(cursor + 65);
